@@ -198,6 +198,73 @@ func hasArrayLikeMap(v *jval, top bool) bool {
 	return false
 }
 
+// sameShape: equal structure, key order and leaf text.
+func sameShape(a, b *jval) bool {
+	if a.kind != b.kind {
+		return false
+	}
+	switch a.kind {
+	case jScalar:
+		return a.text == b.text
+	case jMap:
+		if len(a.keys) != len(b.keys) {
+			return false
+		}
+		for i := range a.keys {
+			if a.keys[i] != b.keys[i] || !sameShape(a.vals[i], b.vals[i]) {
+				return false
+			}
+		}
+		return true
+	default:
+		if len(a.vals) != len(b.vals) {
+			return false
+		}
+		for i := range a.vals {
+			if !sameShape(a.vals[i], b.vals[i]) {
+				return false
+			}
+		}
+		return true
+	}
+}
+
+// sameShapeMlr: the Miller value has the structure, key order and leaf text of want.
+func sameShapeMlr(want *jval, got *mlrval.Mlrval) bool {
+	switch want.kind {
+	case jMap:
+		if !got.IsMap() {
+			return false
+		}
+		pe := got.GetMap().Head
+		for i, k := range want.keys {
+			if pe == nil || pe.Key != k || !sameShapeMlr(want.vals[i], pe.Value) {
+				return false
+			}
+			pe = pe.Next
+		}
+		return pe == nil
+	case jArr:
+		if !got.IsArray() {
+			return false
+		}
+		arr := got.GetArray()
+		if len(arr) != len(want.vals) {
+			return false
+		}
+		for i, e := range want.vals {
+			if !sameShapeMlr(e, arr[i]) {
+				return false
+			}
+		}
+		return true
+	}
+	if got.IsMap() || got.IsArray() {
+		return false
+	}
+	return got.String() == want.text
+}
+
 // ---------------------------------------------------------------- enumeration
 
 type leafKind struct {
@@ -338,17 +405,20 @@ var (
 	keys3    = []string{"a", "1", "2"}
 	leaves3  = []leafKind{allLeaves[1], allLeaves[4], allLeaves[5]}
 	leaves2  = []leafKind{allLeaves[1], allLeaves[5]}
+	leaves4  = []leafKind{allLeaves[1], allLeaves[2], allLeaves[4], allLeaves[5]}
 	seps     = []string{".", ":", "__"}
 )
 
 func libSpaces(quick bool) []docSpace {
 	S := []docSpace{
 		{name: "full<=2leaves", keys: keysFull, leaves: allLeaves, maxMap: 4, maxArr: 2, depth: 2, nLeaves: []int{1, 2}},
-		{name: "3leaves-keys{a,1,2}-leaves{x,{},[]}", keys: keys3, leaves: leaves3, maxMap: 3, maxArr: 2, depth: 2, nLeaves: []int{3}},
+	}
+	if quick {
+		S = append(S, docSpace{name: "3leaves-keys{a,1,2}-leaves{x,[]}-maps<=2", keys: keys3, leaves: leaves2, maxMap: 2, maxArr: 2, depth: 2, nLeaves: []int{3}})
 	}
 	if !quick {
 		S = append(S,
-			docSpace{name: "3leaves-keys{a,1,2}-all-leaves", keys: keys3, leaves: allLeaves, maxMap: 3, maxArr: 2, depth: 2, nLeaves: []int{3}},
+			docSpace{name: "3leaves-keys{a,1,2}-leaves{x,\"\",{},[]}", keys: keys3, leaves: leaves4, maxMap: 3, maxArr: 2, depth: 2, nLeaves: []int{3}},
 			docSpace{name: "4leaves-keys{a,1,2}-leaves{x,[]}-maps<=2", keys: keys3, leaves: leaves2, maxMap: 2, maxArr: 2, depth: 2, nLeaves: []int{4}},
 			docSpace{name: "5leaves-keys{1,2}-leaves{x}-maps<=2", keys: []string{"1", "2"}, leaves: []leafKind{allLeaves[1]}, maxMap: 2, maxArr: 2, depth: 2, nLeaves: []int{5}},
 		)
@@ -359,11 +429,14 @@ func libSpaces(quick bool) []docSpace {
 func cliSpaces(quick bool) []docSpace {
 	S := []docSpace{
 		{name: "cli-1leaf-depth3", keys: keysFull, leaves: allLeaves, maxMap: 4, maxArr: 2, depth: 2, nLeaves: []int{1}},
-		{name: "cli-2leaves-depth2-keys{a,1,2}", keys: keys3, leaves: allLeaves, maxMap: 2, maxArr: 2, depth: 1, nLeaves: []int{2}},
+	}
+	if quick {
+		S = append(S, docSpace{name: "cli-2leaves-depth2-keys{a,1,2}-leaves{x,\"\",{},[]}", keys: keys3, leaves: leaves4, maxMap: 2, maxArr: 2, depth: 1, nLeaves: []int{2}})
 	}
 	if !quick {
 		S = append(S,
-			docSpace{name: "cli-2leaves-depth3-keys{a,1,2}-leaves{x,{},[]}", keys: keys3, leaves: leaves3, maxMap: 2, maxArr: 2, depth: 2, nLeaves: []int{2}},
+			docSpace{name: "cli-2leaves-depth2-keys{a,1,2}", keys: keys3, leaves: allLeaves, maxMap: 2, maxArr: 2, depth: 1, nLeaves: []int{2}},
+			docSpace{name: "cli-2leaves-depth3-keys{a,1,2}-leaves{x,[]}", keys: keys3, leaves: leaves2, maxMap: 2, maxArr: 2, depth: 2, nLeaves: []int{2}},
 			docSpace{name: "cli-3leaves-depth2-keys{a,1,2}-leaves{x,[]}", keys: keys3, leaves: leaves2, maxMap: 3, maxArr: 2, depth: 1, nLeaves: []int{3}},
 		)
 	}
@@ -462,10 +535,31 @@ func expectation(w *vf.Worker, doc *jval, sep string) (flat []flatField, want *j
 	if hasArrayLikeMap(doc, true) {
 		return flat, want, "arrayify-heuristic"
 	}
-	if shapeOf(want) != shapeOf(doc) {
+	if !sameShape(want, doc) {
 		w.Broken("reference model: unflatten(flatten(d)) != d without an array-like map: d=%s sep=%q ref=%s", doc.String(), sep, want.String())
 	}
 	return flat, want, "identity"
+}
+
+var libClassCounts = map[string]int64{}
+
+func flushLibCounts(w *vf.Worker) {
+	for k, v := range libClassCounts {
+		w.Count("lib-class:"+k, v)
+		delete(libClassCounts, k)
+	}
+}
+
+func sameFlat(a, b []flatField) bool {
+	if len(a) != len(b) {
+		return false
+	}
+	for i := range a {
+		if a[i] != b[i] {
+			return false
+		}
+	}
+	return true
 }
 
 func libOne(w *vf.Worker, doc *jval, size int) {
@@ -475,9 +569,9 @@ func libOne(w *vf.Worker, doc *jval, size int) {
 		w.Eval(1)
 		if want != nil && !counted {
 			counted = true
-			w.Count("lib-docs-in-guard", 1)
+			libClassCounts["docs-in-guard"]++
 		}
-		w.Count("lib-class:"+class, 1)
+		libClassCounts[class]++
 		rec := toRecord(doc)
 		var got *mlrval.Mlrmap
 		var gotFlat []flatField
@@ -487,16 +581,16 @@ func libOne(w *vf.Worker, doc *jval, size int) {
 				gotFlat = append(gotFlat, flatField{pe.Key, pe.Value.String()})
 			}
 		})
-		key := fmt.Sprintf(":%02d:sep=%s:%s", size, sep, doc.String())
+		key := func() string { return fmt.Sprintf(":%02d:sep=%s:%s", size, sep, doc.String()) }
 		if p != nil {
-			w.Violation("lib-flatten-panics"+key, fmt.Sprintf("Mlrmap.Flatten(%q) panics on %s: %v", sep, doc.String(), p), map[string]any{"doc": doc.String(), "sep": sep})
+			w.Violation("lib-flatten-panics"+key(), fmt.Sprintf("Mlrmap.Flatten(%q) panics on %s: %v", sep, doc.String(), p), map[string]any{"doc": doc.String(), "sep": sep})
 			continue
 		}
-		if flatText(gotFlat) != flatText(flat) {
+		if !sameFlat(gotFlat, flat) {
 			if class == "guard-false" {
-				w.Count("lib-unconstrained-flatten-differs", 1)
+				libClassCounts["unconstrained-flatten-differs"]++
 			} else {
-				w.Violation("lib-flatten"+key, fmt.Sprintf("Mlrmap.Flatten(%q) of %s = {%s}, documented key spreading gives {%s}", sep, doc.String(), flatText(gotFlat), flatText(flat)), map[string]any{"doc": doc.String(), "sep": sep})
+				w.Violation("lib-flatten"+key(), fmt.Sprintf("Mlrmap.Flatten(%q) of %s = {%s}, documented key spreading gives {%s}", sep, doc.String(), flatText(gotFlat), flatText(flat)), map[string]any{"doc": doc.String(), "sep": sep})
 				continue
 			}
 		}
@@ -510,15 +604,15 @@ func libOne(w *vf.Worker, doc *jval, size int) {
 		}
 		p, _ = vf.Try(func() { got = back.CopyUnflattened(sep) })
 		if p != nil {
-			w.Violation("lib-unflatten-panics"+key, fmt.Sprintf("Mlrmap.CopyUnflattened(%q) panics on {%s}: %v", sep, flatText(gotFlat), p), map[string]any{"doc": doc.String(), "sep": sep})
+			w.Violation("lib-unflatten-panics"+key(), fmt.Sprintf("Mlrmap.CopyUnflattened(%q) panics on {%s}: %v", sep, flatText(gotFlat), p), map[string]any{"doc": doc.String(), "sep": sep})
 			continue
 		}
-		g := jmap()
-		for pe := got.Head; pe != nil; pe = pe.Next {
-			g.put(pe.Key, fromMlrval(pe.Value))
-		}
-		if shapeOf(g) != shapeOf(want) {
-			w.Violation("lib-unflatten["+class+"]"+key, fmt.Sprintf("unflatten(flatten(d)) with separator %q: d=%s flattened={%s} unflattened=%s expected %s (%s)", sep, doc.String(), flatText(gotFlat), shapeOf(g), shapeOf(want), class),
+		if !sameShapeMlr(want, mlrval.FromMap(got)) {
+			g := jmap()
+			for pe := got.Head; pe != nil; pe = pe.Next {
+				g.put(pe.Key, fromMlrval(pe.Value))
+			}
+			w.Violation("lib-unflatten["+class+"]"+key(), fmt.Sprintf("unflatten(flatten(d)) with separator %q: d=%s flattened={%s} unflattened=%s expected %s (%s)", sep, doc.String(), flatText(gotFlat), shapeOf(g), shapeOf(want), class),
 				map[string]any{"doc": doc.String(), "sep": sep})
 		}
 	}
@@ -639,6 +733,9 @@ func cliOne(w *vf.Worker, doc *jval, size int, allVerbFmts bool) {
 	if inGuardAny {
 		w.Nontrivial(1)
 		w.AddSet("docs", doc.String())
+		if size >= 2 {
+			w.Sample(map[string]any{"part": "nest", "document": doc.String(), "flattened_with_colon": flatText(refFlatten(doc, ":"))})
+		}
 	}
 }
 
@@ -677,7 +774,7 @@ func nestWorker(w *vf.Worker) {
 		sp.forEachDoc(mine, func(doc *jval) {
 			n++
 			w.Label(func() string { return sp.name + " " + doc.String() })
-			cliOne(w, doc, countLeaves(doc), !quick)
+			cliOne(w, doc, countLeaves(doc), !quick && sp.depth < 2)
 		})
 		w.Count("cli-space:"+sp.name, int64(n))
 	}
@@ -692,5 +789,6 @@ func nestWorker(w *vf.Worker) {
 			libOne(w, doc, countLeaves(doc))
 		})
 		w.Count("lib-space:"+sp.name, int64(n))
+		flushLibCounts(w)
 	}
 }
